@@ -4,9 +4,9 @@ import CpProofs.Serial
 
   The model (`CpModel/Serial.lean`) transcribes `Serializable._json_traverse`, `json.dumps` and
   `Serializable._markdown_result*`; it is tied to the code by the `JS`/`MD`/`MDS` correspondence ops.
-  Proofs are in `CpProofs/Serial.lean`.  Statements that are false of the code as it stands are kept
-  visible as `…_full : Prop`, refuted by a concrete witness (`…_full_fails`) and proved in the weaker
-  `…_partial` form.
+  Proofs are in `CpProofs/Serial.lean`.  Three statements that were false of the code (set iteration order,
+  the encoder pinned on a class, Markdown returning a raw object) are theorems since the code was repaired;
+  their former counterexamples are kept as regression `example`s.
 -/
 namespace Cp.C14
 open Cp Cp.Serial
@@ -79,11 +79,34 @@ theorem render_faithful (j j' : Json) : floatsOk j = true → floatsOk j' = true
 
 /-! ## determinism: equal values, equal output -/
 
-/-- FULL statement: values that differ only in the order in which equal sets list their elements serialise
-identically.  FALSE of the code: `_json_traverse` and `_markdown_result_list` emit sets in iteration order. -/
-def json_deterministic_up_to_sets_full : Prop := ∀ v v' : PyVal, v ≈ₛ v' → jsonTraverse v = jsonTraverse v'
+/- `v ≈ₛ v'`: the two values differ only in the order in which equal sets list their elements (any number of sets,
+at any depth, dict keys included).  `distinctKeys v`: in every set inside `v`, different elements have
+different JSON documents — the key `_get_ordered_set` sorts by.  These were `…_full : Prop` statements refuted
+by `twoFlags` while `_json_traverse` / `_markdown_result_list` emitted sets in iteration order. -/
 
-def md_deterministic_up_to_sets_full : Prop := ∀ (v v' : PyVal) (lvl : Nat), v ≈ₛ v' → markdown v lvl = markdown v' lvl
+/-- the JSON tree does not depend on the iteration order of sets -/
+theorem json_deterministic_up_to_sets (v v' : PyVal) : distinctKeys v = true → v ≈ₛ v' → jsonTraverse v = jsonTraverse v' :=
+  fun h e => (setEquiv_inv e h).1
+
+/-- `obj.as_json()` does not depend on the iteration order of sets -/
+theorem as_json_deterministic_up_to_sets (v v' : PyVal) : distinctKeys v = true → v ≈ₛ v' → asJson v = asJson v' := by
+  intro h e
+  unfold asJson
+  rw [(setEquiv_inv e h).2.1]
+
+/-- `_markdown_result(v, level)` does not depend on the iteration order of sets -/
+theorem md_deterministic_up_to_sets (v v' : PyVal) (lvl : Nat) : distinctKeys v = true → v ≈ₛ v' → markdown v lvl = markdown v' lvl := by
+  intro h e
+  unfold markdown markdownSt
+  rw [(setEquiv_inv e h).2.2.1]
+
+/-- `obj.as_markdown()` does not depend on the iteration order of sets, whatever encoder state it starts from -/
+theorem as_markdown_deterministic_up_to_sets (v v' : PyVal) (σ : EncState) :
+    distinctKeys v = true → v ≈ₛ v' → asMarkdownSt v σ = asMarkdownSt v' σ := by
+  intro h e
+  obtain ⟨_, _, h3, h4, h5⟩ := setEquiv_inv e h
+  unfold asMarkdownSt
+  rw [isSer_congr h5, clsOf_congr h5, h3, h4]
 
 def twoFlags : PyVal := .seq true [.enumPlain "REVOKE" true (.int 128), .enumPlain "DNS_ZONE_KEY" true (.int 256)]
 def twoFlags' : PyVal := .seq true [.enumPlain "DNS_ZONE_KEY" true (.int 256), .enumPlain "REVOKE" true (.int 128)]
@@ -91,79 +114,124 @@ def twoFlags' : PyVal := .seq true [.enumPlain "DNS_ZONE_KEY" true (.int 256), .
 theorem twoFlags_equiv : twoFlags ≈ₛ twoFlags' :=
   .step (.here _ _ (List.Perm.swap _ _ _)) (.refl _)
 
-theorem json_set_order_full_fails : ¬ json_deterministic_up_to_sets_full := by
-  intro h
-  have := congrArg (fun r => r.map Json.render) (h _ _ twoFlags_equiv)
-  revert this
+/-- regression: the former counterexample (DNSKEY flags inserted in two orders) now renders identically, ordered by
+member name -/
+example : distinctKeys twoFlags = true ∧ asJson twoFlags = asJson twoFlags' ∧
+    asJson twoFlags = .ok "[{\"DNS_ZONE_KEY\": 256}, {\"REVOKE\": 128}]" ∧
+    asMarkdown twoFlags = asMarkdown twoFlags' ∧ asMarkdown twoFlags = .ok "1. DNS_ZONE_KEY\n2. REVOKE\n" := by
   decide +kernel
 
-theorem md_set_order_full_fails : ¬ md_deterministic_up_to_sets_full := by
-  intro h
-  have := h _ _ 0 twoFlags_equiv
-  revert this
+/-- the order is the order of the JSON texts of the items: strings by their literal, numbers by their digits,
+mixed content too -/
+example : asJson (.seq true [.int 9, .str "a", .int 10, .none, .bytes [1], .seq false [.int 1, .int 2]]) =
+    .ok "[\"01\", \"a\", 10, 9, [1, 2], null]" := by
   decide +kernel
 
-/-- PARTIAL: proved for values in which no set has two or more elements.  Missing: invariance under the order
-of larger sets, which the code does not have. -/
-theorem json_deterministic_up_to_sets_partial (v v' : PyVal) :
-    noBigSets v = true → v ≈ₛ v' → jsonTraverse v = jsonTraverse v' := by
-  intro h e
-  rw [setEquiv_eq e h]
-
-theorem md_deterministic_up_to_sets_partial (v v' : PyVal) (lvl : Nat) :
-    noBigSets v = true → v ≈ₛ v' → markdown v lvl = markdown v' lvl := by
-  intro h e
-  rw [setEquiv_eq e h]
+/-- The hypothesis is needed for Markdown: two members of different enumerations with the same name and value code
+but different value texts have the same JSON document (`"A"`), so the sort keeps them in iteration order, and their
+Markdown differs. -/
+theorem md_deterministic_needs_distinct_keys :
+    let v : PyVal := .seq true [.enumParams "A" "x" none, .enumParams "A" "y" none]
+    let v' : PyVal := .seq true [.enumParams "A" "y" none, .enumParams "A" "x" none]
+    v ≈ₛ v' ∧ distinctKeys v = false ∧ asJson v = asJson v' ∧ asMarkdown v ≠ asMarkdown v' := by
+  refine ⟨.step (.here _ _ (List.Perm.swap _ _ _)) (.refl _), ?_⟩
+  decide +kernel
 
 /- The model's JSON side is a pure function of the value: there is no state by which an earlier serialisation could
 influence a later one.  Markdown has the class-level encoder state, treated next. -/
 
 /-! ## the class-level encoder state -/
 
-/-- FULL statement: after a successful Markdown call the class state is what it was.  FALSE of the code:
-`_markdown_human_readable_names` assigns `cls.post_text_encoder`, which creates an attribute on the class of
-the object being rendered. -/
-def md_encoder_restored_full : Prop :=
-  ∀ (v : PyVal) (σ σ' : EncState) (t : String), asMarkdownSt v σ = .ok (t, σ') → σ' = σ
+/- These were `md_encoder_restored_full : Prop`, refuted by `report` while `_markdown_human_readable_names`
+assigned `cls.post_text_encoder` (which created an attribute on the class of the object being rendered). -/
+
+/-- after a successful `cls._markdown_result(v, level)` the class state is what it was: no class has gained a
+`post_text_encoder` attribute and `Serializable.post_text_encoder` is the encoder it was -/
+theorem md_encoder_restored (v : PyVal) (cls : String) (lvl : Nat) (σ σ' : EncState) (r : MdRes) :
+    mdResult v cls lvl σ = .ok (r, σ') → σ' = σ :=
+  mdResult_restores v cls lvl σ r σ'
+
+/-- the same for `obj.as_markdown()` -/
+theorem as_markdown_encoder_restored (v : PyVal) (σ σ' : EncState) (t : String) :
+    asMarkdownSt v σ = .ok (t, σ') → σ' = σ := by
+  intro hr
+  unfold asMarkdownSt at hr
+  split at hr
+  · match hm : mdAsMarkdown v v.clsOf 0 σ with
+    | .error e => rw [hm] at hr; cases hr
+    | .ok (r, σ₁) =>
+      rw [hm] at hr
+      cases hr
+      exact mdAsMarkdown_restores v _ 0 σ r _ hm
+  · match hm : mdResult v baseCls 0 σ with
+    | .error e => rw [hm] at hr; cases hr
+    | .ok (r, σ₁) =>
+      rw [hm] at hr
+      cases hr
+      exact mdResult_restores v _ 0 σ r _ hm
+
+/-- the output does not depend on what was serialised before: `as_markdown()` of `v` after any successful
+`as_markdown()` of any `w` is `as_markdown()` of `v` without it -/
+theorem as_markdown_independent_of_history (w v : PyVal) (σ σ₁ : EncState) (t : String) :
+    asMarkdownSt w σ = .ok (t, σ₁) → asMarkdownSt v σ₁ = asMarkdownSt v σ := by
+  intro h
+  rw [as_markdown_encoder_restored w σ σ₁ t h]
+
+/-- … and neither does it depend on it through an encoder installed afterwards: installing `e` on `Serializable`
+after serialising `w` gives the state installing it before would have given -/
+theorem encoder_installed_later_is_honoured (w v : PyVal) (σ σ₁ : EncState) (t : String) (e : Enc) :
+    asMarkdownSt w σ = .ok (t, σ₁) → asMarkdownSt v { σ₁ with base := e } = asMarkdownSt v { σ with base := e } := by
+  intro h
+  rw [as_markdown_encoder_restored w σ σ₁ t h]
 
 def report : PyVal :=
   .hasAsdict ⟨"app.Report", "", false, true, false, none, false, none⟩
-    (some [⟨"table", true, none⟩, ⟨"note", true, none⟩]) none ""
+    (some [⟨"table", true, none⟩, ⟨"note", true, none⟩]) none
     (.dict true [(.str "table", .dict false [(.enumPlain "A" false (.int 1), .str "x")]), (.str "note", .str "hello")])
 
-theorem md_encoder_restored_full_fails : ¬ md_encoder_restored_full := by
-  intro h
-  have := h report EncState.init ⟨Enc.dflt, [("app.Report", Enc.dflt)]⟩ "* Table:\n    * A: x\n* Note: hello\n" (by decide +kernel)
-  revert this
+/-- regression: the former counterexample (a dict with an enum key) leaves the state untouched … -/
+example : asMarkdownSt report EncState.init = .ok ("* Table:\n    * A: x\n* Note: hello\n", EncState.init) := by
   decide +kernel
 
-/-- PARTIAL: every class still resolves to the encoder it resolved to before, and `Serializable`'s own
-encoder is unchanged (attributes may have been added to classes).  Hypotheses: no object claims to be of class
-`Serializable` itself, and the call is made as a proper subclass (`obj.as_markdown()` always is).  Missing:
-equality of the state, refuted above. -/
-theorem md_encoder_restored_partial (v : PyVal) (cls : String) (lvl : Nat) (σ σ' : EncState) (r : MdRes) :
-    allHdrs properCls v = true → cls ≠ baseCls → mdResult v cls lvl σ = .ok (r, σ') → SameEncoders σ σ' :=
-  fun h hc hr => mdResult_preserves v h cls lvl σ r σ' hc hr
-
-theorem as_markdown_encoder_restored_partial (v : PyVal) (σ σ' : EncState) (t : String) :
-    allHdrs properCls v = true → v.isSer = true → asMarkdownSt v σ = .ok (t, σ') → SameEncoders σ σ' := by
-  intro h hs hr
-  unfold asMarkdownSt at hr
-  rw [if_pos hs] at hr
-  match hm : mdAsMarkdown v v.clsOf 0 σ with
-  | .error e => rw [hm] at hr; cases hr
-  | .ok (r, σ₁) =>
-    rw [hm] at hr
-    cases hr
-    exact mdAsMarkdown_preserves v h 0 σ r _ hm
-
-/-- The added attribute is observable: with the same encoder installed on `Serializable`, `as_markdown()` of the
-same object gives a different text in a process where the object's class has rendered Markdown before. -/
-theorem md_encoder_pin_observable :
+/-- … and an encoder installed on `Serializable` afterwards is used (it was ignored: `* A: x`, `* Note: hello`).
+The key `A` itself is rendered with the default encoder, as before. -/
+example :
     let installed : Enc := ⟨"<<", ">>"⟩
     let fresh := (asMarkdownSt report ⟨installed, []⟩).map (·.1)
     let after := (asMarkdownSt report EncState.init).bind fun r => (asMarkdownSt report { r.2 with base := installed }).map (·.1)
-    fresh = .ok "* Table:\n    * A: <<x>>\n* Note: <<hello>>\n" ∧ after = .ok "* Table:\n    * A: x\n* Note: hello\n" := by
+    fresh = .ok "* Table:\n    * A: <<x>>\n* Note: <<hello>>\n" ∧ after = fresh := by
+  decide +kernel
+
+/-! ## Markdown is text: a single-valued `_asdict()` is rendered, not returned -/
+
+/- `asMarkdown : PyVal → Except PErr String`: in the model the result is text by construction.  What made the code
+return a `Url` / `Base64Data` object was `_markdown_result_complex` handing back the raw non-dict value of
+`_asdict()`; the statement that corresponds to the repair is that this value goes through `_markdown_result`. -/
+
+/-- for an object whose `_asdict()` is not a dict (and whose class does not override `_as_markdown`),
+`obj._as_markdown(level)` is `cls._markdown_result(obj._asdict(), level)` -/
+theorem md_single_value_is_rendered (h : ObjHdr) (metas : Option (List FieldMeta)) (inner : PyVal) :
+    h.mdLit = none → (∀ o kvs, inner ≠ .dict o kvs) → mdAsMarkdown (.hasAsdict h metas none inner) = mdResult inner := by
+  intro hl hnd
+  simp only [mdAsMarkdown, asMarkdownOf, hl]
+  cases inner with
+  | dict o kvs => exact absurd rfl (hnd o kvs)
+  | _ => simp only [mdComplexAsdict]
+
+/-- in particular a `str` value passes through `post_text_encoder` like every other leaf (it used to bypass it) -/
+theorem md_single_str_is_encoded (h : ObjHdr) (metas : Option (List FieldMeta)) (s : String) (σ : EncState) :
+    h.mdLit = none → h.serializable = true →
+    asMarkdownSt (.hasAsdict h metas none (.str s)) σ = .ok ((σ.get h.cls).pre ++ s ++ (σ.get h.cls).post, σ) := by
+  intro hl hs
+  simp only [asMarkdownSt, PyVal.isSer, PyVal.hdr?, hs, if_true, PyVal.clsOf, mdAsMarkdown, asMarkdownOf, hl, mdComplexAsdict,
+    mdResult, encode, Except.map]
+
+/-- regression: a CSP host source (`_asdict()` is a urllib3 `Url`) renders as the text of the URL -/
+example : asMarkdown (.hasAsdict ⟨"cryptoparser.httpx.header.ContentSecurityPolicySourceHost", "", false, true, false, none, false, none⟩
+    (some [⟨"value", true, none⟩]) none
+    (.hasAsdict ⟨"urllib3.util.url.Url", "https://example.com/x", false, false, true, none, false, none⟩ none none
+      (.dict true [(.str "scheme", .str "https"), (.str "host", .str "example.com"), (.str "path", .str "/x")]))) =
+    .ok "https://example.com/x" := by
   decide +kernel
 
 /-! ## non-vacuity: a realistic object -/
@@ -172,14 +240,14 @@ theorem md_encoder_pin_observable :
 def sample : PyVal :=
   .hasAsdict ⟨"cryptoparser.tls.extension.TlsExtensionUnparsed", "", false, true, false, none, false, none⟩
     (some [⟨"extension_type", true, none⟩, ⟨"extension_data", true, none⟩, ⟨"groups", true, some "Named Groups"⟩,
-           ⟨"comment", false, none⟩]) none ""
+           ⟨"comment", false, none⟩]) none
     (.dict true [
       (.str "extension_type", .enumParams "SERVER_NAME" "server_name" none),
       (.str "extension_data", .bytes [0x00, 0xab, 0xff]),
       (.str "groups", .seq false [.seq false [.int 23, .int 24], .seq false []]),
       (.str "comment", .none)])
 
-example : KeysOrderable sample ∧ KeysOrderableNative sample ∧ noBigSets sample = true ∧ allHdrs properCls sample = true := by
+example : KeysOrderable sample ∧ KeysOrderableNative sample ∧ distinctKeys sample = true := by
   unfold KeysOrderable KeysOrderableNative
   decide +kernel
 
